@@ -151,8 +151,8 @@ func runC20(c *Ctx) {
 			if bin, ok := ia.Index.(*ssa.BinOp); ok {
 				header = bin.Block()
 			}
-			for l := range f.At(st.Block()) {
-				if header != nil && f.At(header)[l] {
+			for l := range f.Primary(st.Block()) {
+				if header != nil && f.Primary(header)[l] {
 					continue
 				}
 				if bin, ok := l.V.(*ssa.BinOp); ok && bin.Op == token.LSS && bin.X == ia.Index {
